@@ -674,6 +674,18 @@ func (n *simNet) gc() {
 	n.conns = keep
 }
 
+// connAliveLocked: neither reset nor closed by either end (caller holds n.mu,
+// as the wire callbacks do).
+func (n *simNet) connAliveLocked(c *simConn) bool {
+	if c == nil {
+		return false
+	}
+	if c.h[0].eof || c.h[1].eof {
+		return false // a FIN has been delivered: the reader is about to see the end
+	}
+	return !c.h[0].reset && !c.h[1].reset && !c.ends[0].closed && !c.ends[1].closed
+}
+
 // newestConnID returns the id of the most recently dialled live connection
 // between two hosts (0 if none).
 func (n *simNet) newestConnID(a, b string) int {
